@@ -665,6 +665,16 @@ func run(t *testing.T, prop string, x any, cfg simrt.Config) *eng.Outcome {
 			}
 		}
 	}
+	for c := range sc.Clients {
+		for _, op := range sc.Clients[c] {
+			switch {
+			case op.Kind == "mutarg", op.Kind == "mutsnap":
+				o.Faults["caller_mutates_"+map[string]string{"mutarg": "merge_argument", "mutsnap": "snapshot_or_argument"}[op.Kind]]++
+			case op.Kind == "set" && strings.HasPrefix(op.Val, "n"):
+				o.Probes["nested_section_value"]++
+			}
+		}
+	}
 	o.Nontrivial = overlaps > 0 || (nc == 1 && total >= 3)
 	o.Shape = uint64(nc)*7919 + uint64(total)*104729 + uint64(sc.NKeys)
 	sum := summary{Ops: total, Overlaps: overlaps}
